@@ -243,7 +243,13 @@ def contract_call(ex, callee: Spec, args, kwargs, st, text):
     old = cur.snapshot()
     cur.havoc(callee.modifies)
     result = callee.result_value(cur, a)
-    for g, term in (callee.ghost_update(old, cur, a, result) or {}).items():
+    upd = callee.ghost_update(old, cur, a, result) or {}
+    # ghost frame: a ghost the callee declares it may change, and for which it gives no exact witness, is havocked
+    # (its post-state is then only what the callee's postconditions say about it)
+    for g in callee.ghost_modifies:
+        if g not in upd and g in cur.ghost:
+            cur.ghost[g] = cur.fresh("G." + g, cur.ghost[g].sort())
+    for g, term in upd.items():
         fresh = cur.fresh("G." + g, term.sort())
         cur.ghost[g] = fresh
         cur.assume(fresh == term)
